@@ -190,6 +190,12 @@ def render_tls() -> tuple[str, list[str]]:
     except Exception as e:  # noqa: BLE001
         problems.append(f"control contexts: {type(e).__name__}: {e}")
         old, s3 = False, False
+    try:
+        chunk = tls_peer.measure_write_chunk()
+        chunk_line = f"def responseWriteChunk : Nat := {chunk}   -- pieces in which _send_response writes a body (0 = one piece); measured on the real protocol"
+    except Exception as e:  # noqa: BLE001
+        problems.append(f"response write pattern: {type(e).__name__}: {e}")
+        chunk_line = f"-- responseWriteChunk: NOT MEASURABLE ({type(e).__name__}: {str(e)[:120]})"
     names = ", ".join('"' + n + '"' for _, n, _ in tls_paths.PATHS)
     text = "\n".join([
         "-- GENERATED by harness/props/c20.py (extract_extra) from the REAL context objects on every run — do not edit",
@@ -202,6 +208,7 @@ def render_tls() -> tuple[str, list[str]]:
         f"def contextPathNames : List String := [{names}]",
         f"def sslv3Available : Bool := {'true' if s3 else 'false'}",
         f"def oldTlsNegotiable : Bool := {'true' if old else 'false'}   -- control contexts complete TLS 1.0 in this OpenSSL",
+        chunk_line,
         "end NauyacaVerif.Gen", ""])
     return text, problems
 
@@ -313,10 +320,11 @@ class Plaintext(Family):
     thorough_n = 160000
 
     def gen(self, rng: random.Random, n: int):
-        for i in range(n):
+        fixed = list(self.share(PLAIN_LINES))   # this shard's part of the fixed list, then random payloads
+        for i in range(max(n, len(fixed))):
             r = rng.random()
-            if i < len(PLAIN_LINES):
-                payload = PLAIN_LINES[i]
+            if i < len(fixed):
+                payload = fixed[i]
             elif r < 0.35:
                 payload = rng.choice(PLAIN_LINES)
             elif r < 0.7:
